@@ -565,7 +565,7 @@ var c10EnvValues = []string{"", "yes", "no", "true", "false", "maybe", "0", "1",
 	"lowLatency", "./rec/%path/%Y-%m-%d_%H-%M-%S-%f", "./rec/%Y", "50M", "1.5K", "99999999999999999999M", "H264", "MPEG4Audio", "stun:h:1", "\xff\xfe", "é", "a=b", " ", "quic", "clock", "auto", "4.1"}
 
 // c10GenEnvKey builds a key the loader may look at: MTX_/RTSP_ + parameter path (lists by index, maps by key).
-func c10GenEnvKey(t *rapid.T, l string) string {
+func c10GenEnvKey(t *rapid.T, l string, docPathKeys []string) string {
 	prefix := rapid.SampledFrom([]string{"MTX", "MTX", "MTX", "RTSP"}).Draw(t, l+".prefix")
 	var walk func(rt reflect.Type, depth int) string
 	walk = func(rt reflect.Type, depth int) string {
@@ -603,11 +603,29 @@ func c10GenEnvKey(t *rapid.T, l string) string {
 				return ""
 			}
 			k := rapid.SampledFrom([]string{"CAM1", "CAM", "ALL", "ALL_OTHERS", "~^A$", "X/Y", "a", "", "TEST", "RPIA", "..", "A B"}).Draw(t, fmt.Sprintf("%s.k%d", l, depth))
+			if len(docPathKeys) > 0 && rapid.Bool().Draw(t, fmt.Sprintf("%s.dockey%d", l, depth)) {
+				k = strings.ToUpper(rapid.SampledFrom(docPathKeys).Draw(t, fmt.Sprintf("%s.dk%d", l, depth)))
+			}
 			return "_" + k + walk(rt.Elem(), depth+1)
 		}
 		return ""
 	}
-	key := prefix + walk(reflect.TypeOf(Conf{}), 0)
+	var key string
+	confT := reflect.TypeOf(Conf{})
+	byName := func(n string) string {
+		f, _ := confT.FieldByName(n)
+		return "_" + strings.ToUpper(cgJSONName(f)) + walk(f.Type, 1)
+	}
+	switch rapid.IntRange(0, 9).Draw(t, l+".area") {
+	case 0, 1, 2: // a parameter of a path
+		key = prefix + byName("OptionalPaths")
+	case 3: // a path default
+		key = prefix + byName("PathDefaults")
+	case 4: // an item of a list of structures
+		key = prefix + byName(rapid.SampledFrom([]string{"AuthInternalUsers", "AuthHTTPExclude", "AuthJWTExclude", "WebRTCICEServers2"}).Draw(t, l+".list"))
+	default:
+		key = prefix + walk(confT, 0)
+	}
 	switch rapid.IntRange(0, 11).Draw(t, l+".twist") {
 	case 0:
 		key += "_"
@@ -621,9 +639,12 @@ func c10GenEnvKey(t *rapid.T, l string) string {
 	return key
 }
 
-func c10GenEnv(t *rapid.T) map[string]string {
+func c10GenEnv(t *rapid.T, docPathKeys []string, atLeastOne bool) map[string]string {
 	env := map[string]string{}
 	n := rapid.SampledFrom([]int{0, 0, 1, 2, 3, 6}).Draw(t, "env.n")
+	if atLeastOne && n == 0 {
+		n = 1
+	}
 	for i := 0; i < n; i++ {
 		l := fmt.Sprintf("env%d", i)
 		var k, v string
@@ -634,12 +655,16 @@ func c10GenEnv(t *rapid.T) map[string]string {
 				{"MTX_PATHS_RPIA_SOURCE", "rpiCamera"}, {"MTX_PATHS_RPIB_SOURCE", "rpiCamera"}, {"MTX_PATHS_ALL_OTHERS_RECORD", "yes"}, {"MTX_RECORDPATH", "x"}, {"RTSP_WRITEQUEUESIZE", "6"},
 				{"MTX_PATHDEFAULTS_RECORDSEGMENTDURATION", "2d"}, {"MTX_PATHS_ALL", ""}, {"MTX_PATHS_A/../B", ""}, {"MTX_PLAYBACK", "yes"}, {"MTX_PATHS_~^S$_SOURCE", "udp://238.0.0.1:1"},
 				{"MTX_AUTHINTERNALUSERS_0_USER", ""}, {"MTX_AUTHINTERNALUSERS_5_USER", "x"}, {"MTX_AUTHINTERNALUSERS_0_PERMISSIONS_0_ACTION", "fly"}, {"MTX_AUTHINTERNALUSERS", ""},
-				{"MTX_PATHS_CAM1_ALWAYSAVAILABLETRACKS_0_CODEC", "H264"}, {"MTX_PATHS_CAM1_FORWARD_0_DEST", "rtsp://x"}, {"MTX_WEBRTCICESERVERS2_0_URL", "stun:x:1"},
+				{"MTX_PATHS_CAM1_ALWAYSAVAILABLETRACKS_0_CODEC", "H264"}, {"MTX_WEBRTCICESERVERS", ""}, {"MTX_WEBRTCICEHOSTNAT1TO1IPS", ""}, {"MTX_WEBRTCICESERVERS", "stun:x:1"},
+				{"MTX_PROTOCOLS", ""}, {"MTX_AUTHMETHODS", ""}, {"MTX_PATHDEFAULTS_PUBLISHIPS", ""}, {"MTX_PATHDEFAULTS_RTSPUDPSOURCEPORTRANGE", ""}, {"MTX_PATHDEFAULTS_RPICAMERAAWBGAINS", ""}, {"MTX_PATHS_CAM1_FORWARD_0_DEST", "rtsp://x"}, {"MTX_WEBRTCICESERVERS2_0_URL", "stun:x:1"},
 			}).Draw(t, l+".kv")
 			k, v = kv[0], kv[1]
 		} else {
-			k = c10GenEnvKey(t, l)
+			k = c10GenEnvKey(t, l, docPathKeys)
 			v = rapid.SampledFrom(c10EnvValues).Draw(t, l+".v")
+			if rapid.IntRange(0, 7).Draw(t, l+".empty") == 0 {
+				v = ""
+			}
 		}
 		if k == "" || strings.ContainsAny(k, "=\x00") || strings.Contains(v, "\x00") || k == "MTX_CONFKEY" || k == "RTSP_CONFKEY" {
 			continue
@@ -737,11 +762,17 @@ func TestVerifC10Load(t *testing.T) {
 		// profile "one-broken-constraint": an otherwise acceptable document with exactly one documented constraint
 		// broken, delivered cleanly - the inputs that tell a complete Validate from one with a clause missing.
 		// profile "chaos": up to five faults of any kind, any delivery, arbitrary environment.
-		clean := rapid.IntRange(0, 9).Draw(t, "profile") < 3
+		// profile "environment": an acceptable document, clean delivery, 1..6 arbitrary environment assignments (keys
+		// aimed at the document's own paths half of the time) - so that the environment loader is really reached.
+		profile := rapid.IntRange(0, 9).Draw(t, "profile")
+		clean := profile < 3
+		envOnly := profile == 3 || profile == 4
 		doc := cgGenConfDoc(t, cgDocOpts{MaxGlobal: 8, MaxPerPath: 6, MaxPaths: 3})
 		nf := 1
 		nStruct := 1
-		if !clean {
+		if envOnly {
+			nf, nStruct = 0, 0
+		} else if !clean {
 			nf = rapid.SampledFrom([]int{0, 0, 1, 1, 1, 2, 3, 5}).Draw(t, "nfaults")
 			nStruct = nf
 			if nf > 0 {
@@ -775,8 +806,16 @@ func TestVerifC10Load(t *testing.T) {
 			}
 			mode = rapid.SampledFrom([]string{"plain", "plain", "encrypted", "legacy-key"}).Draw(t, "mode")
 		} else {
-			env = c10GenEnv(t)
-			mode = rapid.SampledFrom([]string{"plain", "plain", "plain", "encrypted", "encrypted", "raw+key", "raw+key", "wrong-key", "legacy-key", "both-keys", "plain+key"}).Draw(t, "mode")
+			var docPathKeys []string
+			if pm, ok := doc["paths"].(map[string]any); ok {
+				docPathKeys = c10SortedKeys(pm)
+			}
+			env = c10GenEnv(t, docPathKeys, envOnly)
+			if envOnly {
+				mode = rapid.SampledFrom([]string{"plain", "plain", "encrypted"}).Draw(t, "mode")
+			} else {
+				mode = rapid.SampledFrom([]string{"plain", "plain", "plain", "encrypted", "encrypted", "raw+key", "raw+key", "wrong-key", "legacy-key", "both-keys", "plain+key"}).Draw(t, "mode")
+			}
 		}
 		key := rapid.OneOf(rapid.StringMatching(`[ -~]{0,40}`), rapid.SampledFrom([]string{"", "0123456789abcdef0123456789abcdef", "é"})).Draw(t, "key")
 		if strings.ContainsRune(key, 0) {
@@ -849,6 +888,8 @@ func TestVerifC10Load(t *testing.T) {
 		invocation := "explicit"
 		if clean {
 			invocation = rapid.SampledFrom([]string{"explicit", "default-list"}).Draw(t, "invocation")
+		} else if envOnly {
+			invocation = rapid.SampledFrom([]string{"explicit", "explicit", "default-list", "no-file"}).Draw(t, "invocation")
 		} else {
 			invocation = rapid.SampledFrom([]string{"explicit", "explicit", "explicit", "default-list", "no-file", "missing-explicit"}).Draw(t, "invocation")
 		}
@@ -875,7 +916,7 @@ func TestVerifC10Load(t *testing.T) {
 		}
 
 		pastYAML := invocation != "no-file" && invocation != "missing-explicit" && (mode == "plain" || mode == "encrypted" || mode == "legacy-key" || mode == "both-keys") && parses
-		classes := []string{"mode:" + mode, "invocation:" + invocation, map[bool]string{true: "profile:one-broken-constraint", false: "profile:chaos"}[clean]}
+		classes := []string{"mode:" + mode, "invocation:" + invocation, "profile:" + map[bool]string{true: "one-broken-constraint", false: map[bool]string{true: "environment", false: "chaos"}[envOnly]}[clean]}
 		if lerr == nil && panicked == nil {
 			classes = append(classes, "outcome:accepted")
 		} else {
